@@ -227,6 +227,11 @@ CAST_COL = {"float": "a", "object": "c", "str": "c"}
 CAST_DTYPE = {"float": float, "object": object, "str": str}
 
 
+# one mapping object per kind of mapping, reused by every read of the run (a user's module-level constant):
+# a reader must not consume or edit the mapping it is given
+CAST_MAPS = {k: {CAST_COL[k]: CAST_DTYPE[k]} for k in CAST_COL}
+
+
 def _cast_image(src, cast):
     if cast == "float":
         img = [float(str(v).replace("x", "")) if isinstance(v, str) else float(v) for v in src.values]
@@ -261,7 +266,7 @@ def do_read(d, e, contents_written):
             kw["columns" if o != "lod" else "keys"] = list(e["cols"])
         if cast:
             if o != "lod":
-                kw["dtypes"] = {CAST_COL[cast]: CAST_DTYPE[cast]}
+                kw["dtypes"] = CAST_MAPS[cast]
             else:
                 kw["types"] = {"a": (lambda x: float(str(x).replace("x", "")))}
         kw.update(extra or {})
@@ -326,6 +331,8 @@ def run_behaviour(hist):
 
 def sig_of(e):
     s = {"t": e["t"], "owner": e["owner"], "fmt": e["fmt"], "suffix": e["suffix"]}
+    if e["fmt"] in ("csv", "json", "geojson"):
+        s["enc"] = e["enc"]
     if e["t"] == "read":
         s.update({"restricted": bool(e["cols"]), "alias": e["alias"], "cast": e["cast"]})
         if e.get("foreign"):
@@ -352,7 +359,7 @@ def run_for(ctx, prop):
     rng = ctx.rng
     ALLF = ["pickle", "npz", "parquet", "csv", "json", "geojson"]
     # every configuration: one write followed by one read (whole / restricted / alias / cast)
-    hists = gen(ctx, 2, len(CONTENTS), ALLF, [",", ";", "\t"], ["utf-8", "latin-1"])
+    hists = gen(ctx, 2, len(CONTENTS), ALLF, [",", ";", "\t"], ["utf-8", "latin-1", "utf-16"])
     # interleavings: two writes (overwrite, or another suffix of the same stem) then reads
     hists3 = gen(ctx, 3, 2, ["pickle", "csv", "json"], [","], ["utf-8"])
     hists3 = [h for h in hists3 if len(h) == 3]
@@ -363,11 +370,11 @@ def run_for(ctx, prop):
         strata = {}
         for h in hists:
             w, r = h[0], h[-1]
-            strata.setdefault((w["owner"], w["fmt"], w["ext"], r["cast"], r["alias"], bool(r["cols"])), []).append(h)
+            strata.setdefault((w["owner"], w["fmt"], w["ext"], r["cast"], r["alias"], bool(r["cols"]), w["enc"]), []).append(h)
         chosen = []
         for key in sorted(strata):
             plain = not (key[3] or key[4] or key[5])
-            n = 60 if plain == (prop == "C12") else 8
+            n = (60 if plain == (prop == "C12") else 8) // (1 if key[1] in ("pickle", "npz", "parquet") else 2)
             chosen += rng.sample(strata[key], min(len(strata[key]), n))
     else:
         chosen = hists
